@@ -3,9 +3,11 @@ ClusterPipeline.tla exhaustively (all schedules of W workers, the writer and the
 real runs with 1..15 workers (taskset), seeded delays inside every Progress callback, queues
 shorter and longer than the back-pressure limit, validated by ClusterPipelineTrace (pipeline
 invariants on the observable projection) and ContentPackTrace (every address resolves)."""
+import json
 import os
 import random
 import shutil
+import subprocess
 import time
 
 import common as C
@@ -86,6 +88,141 @@ def pipeline_events(s, run, pk, verb):
         evs.append({"ev": "Addr", "scn": sid, "id": c["id"], "tailOfOwnSeg": bool(verb.get(c["id"]))})
     evs.append({"ev": "Done", "scn": sid, "clusterCount": pk["clusterCount"]})
     return evs
+
+
+
+FAULT_CFG = """SPECIFICATION FTraceSpec
+INVARIANT Done
+POSTCONDITION TraceAccepted
+CHECK_DEADLOCK FALSE
+"""
+
+
+def faults_mc_cfg(w, n, q, dec, faults, stuck_inv):
+    return """CONSTANTS
+  W = %d
+  N = %d
+  MaxQueue = %d
+  Rebase = TRUE
+  IndexAssign = TRUE
+  DecOnFail = %s
+  MaxFaults = %d
+SPECIFICATION FFairSpec
+INVARIANTS FTypeOK OkMeansComplete FailureReported PrefixSafe %s
+%s
+CHECK_DEADLOCK FALSE
+""" % (w, n, q, "TRUE" if dec else "FALSE", faults, "NeverStuck" if stuck_inv else "",
+       ("PROPERTIES " + " ".join((["Settles"] if dec or not faults else []) + ([] if faults else ["NoFaultIsOk"]))) if (dec or not faults) else "")
+
+
+def fault_path_stage(rep, prop, tier, hooked, base, rng):
+    """The failure path of the writer thread (PipelineFaults.tla): behaviour beyond the listed properties.  Nothing here can
+    become a VIOLATION: the stage records (1) what TLC says about the code's policy and about the repaired one and (2) whether
+    the real code, made to fail a write, still follows the modelled fault path and ends where the model says it can."""
+    obs = {"design": [], "runs": [], "outcomes": {}}
+    w, n, q = (1, 4, 2) if tier == "quick" else (2, 6, 4)
+    # (1) design level: safety under both policies; the code's policy reaches Stuck, the repaired one settles
+    r = C.tlc("PipelineFaults", faults_mc_cfg(w, n, q, False, 1, True), "MC_PipelineFaults_code", timeout=1800)
+    rep.add_tlc(r, "MC_PipelineFaults code policy W=%d N=%d MaxQueue=%d (expected: NeverStuck violated)" % (w, n, q))
+    obs["design"].append({"policy": "code (no decrement when the send fails)", "violated": r["violated"], "states": r["states"]})
+    stuck_reachable = (r["violated"] == "NeverStuck")
+    if r["violated"] not in ("NeverStuck",):
+        rep.drift("PipelineFaults (code policy): expected the state Stuck to be reachable, TLC says violated=%s" % r["violated"])
+    r = C.tlc("PipelineFaults", faults_mc_cfg(w, n, q, False, 1, False), "MC_PipelineFaults_code_safety", timeout=1800)
+    rep.add_tlc(r, "MC_PipelineFaults code policy, safety only (OkMeansComplete FailureReported PrefixSafe)")
+    obs["design"].append({"policy": "code, safety invariants only", "violated": r["violated"], "states": r["states"]})
+    if not r["ok"]:
+        rep.drift("PipelineFaults (code policy): a safety invariant fails: %s" % r["violated"])
+    r = C.tlc("PipelineFaults", faults_mc_cfg(w, n, q, True, 1, True), "MC_PipelineFaults_repaired", timeout=1800)
+    rep.add_tlc(r, "MC_PipelineFaults repaired policy (decrement + notify whatever the send says): Settles, NeverStuck")
+    obs["design"].append({"policy": "repaired (DecOnFail)", "violated": r["violated"], "states": r["states"]})
+    if not r["ok"]:
+        rep.drift("PipelineFaults (repaired policy) violates %s" % r["violated"])
+    r = C.tlc("PipelineFaults", faults_mc_cfg(w, n, q, False, 0, True), "MC_PipelineFaults_nofault", timeout=1800)
+    rep.add_tlc(r, "MC_PipelineFaults without a fault: the extension is the original machine (Settles in ok)")
+    if not r["ok"]:
+        rep.drift("PipelineFaults without faults violates %s" % r["violated"])
+    # (2) the real code: one write of the writer fails with EFBIG (prlimit --fsize, SIGXFSZ ignored); trace through stdout
+    # (the limit applies to every regular file the process writes, a trace file included)
+    events, scns = [], []
+    ncpu = os.cpu_count() or 2
+    plans = [(1, 400), (1, 700), (1, 1200), (3, 700), (3, 1500)] if tier == "quick" else \
+            [(c, f) for c in (1, 2, 3, 4) for f in (300, 400, 700, 1000, 1200, 1500, 2200)]
+    for k, (cpus, fsize) in enumerate(plans):
+        if cpus > ncpu:
+            continue
+        ncl = 8 if cpus < 3 else 14
+        ops = [{"cid": i + 1, "size": 2 * MIB + 4096 + i, "cls": "low", "hint": "yes", "src": "mem", "origin": 1} for i in range(ncl)]
+        sid = "flt%d" % k
+        s = {"kind": "content", "id": sid, "comp": "zstd", "level": 1, "ops": ops, "delay_seed": rng.randrange(1, 1 << 30),
+             "delay_max_us": 20000, "origin": "pipeline-faults", "dir": os.path.join(base, sid), "trace_hooks": True, "read": False}
+        sf = os.path.join(base, sid + ".scn")
+        os.makedirs(base, exist_ok=True)
+        with open(sf, "w") as f:
+            f.write(json.dumps(s) + "\n")
+        env = dict(os.environ, VERIF_IGNORE_XFSZ="1", VERIF_SCN_TIMEOUT="6", VERIF_POOL=C.POOL, RUST_BACKTRACE="0")
+        cmd = ["taskset", "-c", "0-%d" % (cpus - 1) if cpus > 1 else "0", "prlimit", "--fsize=%d" % fsize, hooked, "run", sf]
+        try:
+            p = subprocess.run(cmd, env=env, capture_output=True, timeout=60)
+        except subprocess.TimeoutExpired:
+            rep.drift("fault path: run %s did not end within 60 s although the watchdog is set to 6 s" % sid)
+            continue
+        raw = []
+        for line in p.stdout.decode("utf-8", "replace").splitlines():
+            try:
+                raw.append(json.loads(line))
+            except ValueError:
+                pass
+        fin = next((e for e in raw if e.get("ev") == "Finalize"), None)
+        if p.returncode == 98:
+            status = "hang"
+        elif fin is not None and fin.get("ok"):
+            status = "ok"
+        elif fin is not None:
+            status = "fail"
+        else:
+            status = "crash:%s" % p.returncode
+        obs["outcomes"][status] = obs["outcomes"].get(status, 0) + 1
+        obs["runs"].append({"cpus": cpus, "fsize": fsize, "clusters": ncl, "status": status,
+                            "panics": [(e.get("thread"), os.path.basename(str(e.get("site")))) for e in raw if e.get("ev") == "PanicSite"]})
+        if status.startswith("crash"):
+            rep.drift("fault path: run %s ended with %s (neither a result nor the watchdog)" % (sid, status))
+            continue
+        evs = [{"ev": "New", "scn": sid, "workers": e["workers"], "maxQueue": e["maxQueue"]} for e in raw if e["ev"] == "New"]
+        for e in raw:
+            if e["ev"] == "Hook":
+                evs.append({"ev": "Hook", "scn": sid, "name": e["name"], "id": e["id"], "a": e["a"], "b": e["b"], "thread": e["thread"]})
+            elif e["ev"] == "PanicSite":
+                evs.append({"ev": "Panic", "scn": sid, "thread": e.get("thread") or "?", "site": str(e.get("site"))})
+        evs.append({"ev": "Outcome", "scn": sid, "status": status})
+        events += evs
+        scns.append(s)
+        shutil.rmtree(s["dir"], ignore_errors=True)
+    accepted = None
+    if events:
+        ev_left = events
+        for rnd in range(4):
+            tv = C.validate_trace("PipelineFaultsTrace", FAULT_CFG, "PipelineFaultsTrace_%s_%d" % (prop, rnd), ev_left, timeout=600)
+            rep.add_tlc(tv, "PipelineFaultsTrace round %d" % rnd)
+            if tv["accepted"]:
+                accepted = (rnd == 0)
+                break
+            ev = tv.get("rejected_event") or {}
+            rep.drift("fault path: the code departs from PipelineFaults at %s" % json.dumps({k_: v for k_, v in ev.items()}, sort_keys=True)[:240])
+            accepted = False
+            ev_left = [e for e in ev_left if e.get("scn") != ev.get("scn")]
+            if not ev_left or ev.get("scn") is None:
+                break
+    obs["trace_accepted"] = accepted
+    obs["trace_events"] = len(events)
+    hangs = obs["outcomes"].get("hang", 0)
+    obs["summary"] = ("OBSERVATION (outside the listed properties): after a failed write of the writer thread the workers leave by a panic without "
+                      "decrementing nb_cluster_in_queue; a main thread waiting for room in the queue then waits forever. TLC: Stuck %s under the "
+                      "code's policy, unreachable under DecOnFail. Real code: %d of %d faulted runs hung (watchdog), each in the state Stuck."
+                      % ("reachable" if stuck_reachable else "NOT reachable", hangs, len(obs["runs"])))
+    print("OBSERVATION: pipeline fault path: %d/%d faulted runs hang (model state Stuck); trace %s" %
+          (hangs, len(obs["runs"]), "accepted" if accepted else "not fully accepted"), flush=True)
+    rep.cov["fault_path"] = obs
 
 
 def run(prop, tier):
@@ -194,6 +331,8 @@ def run(prop, tier):
             hook_scns.append(s)
             shutil.rmtree(s["dir"], ignore_errors=True)
     C.log("[%s] hooked runs done %.0fs (%d events)" % (prop, time.time() - rep.t0, len(hook_events)))
+    fault_path_stage(rep, prop, tier, hooked, os.path.join(base, "faults"), rng)
+    C.log("[%s] fault path stage done %.0fs" % (prop, time.time() - rep.t0))
     # 3. code -> spec
     import p_entries as E
     E.validate_all(rep, prop, hook_scns, hook_events, "PipelineHooksTrace", HOOK_CFG, sigf=lambda s: "hooks workers=%s delay=%s clusters~%d" % (s.get("workers_setting"), s.get("delay_max_us"), len(s["ops"])))
